@@ -326,6 +326,21 @@ func (x *c17) oneConfig(cfg *pb.ApiConfig, desc string) {
 		if gb2.cfg == nil || !proto.Equal(gb2.cfg.ApiConfig, exp) {
 			x.report("C17.P5", "configuration reset by a later resolver update without a configuration", fmt.Sprintf("first %v, now %v", exp, gb2.cfg))
 		}
+		// P5c: resolver errors before (and after) the first resolver update are not resolver updates:
+		// the configuration that comes with the first update is the effective one
+		cc3 := &fakeCC{}
+		b3 := newBuilder().Build(cc3, balancer.BuildOptions{})
+		gb3 := b3.(*gcpBalancer)
+		b3.ResolverError(fmt.Errorf("dns: lookup failed"))
+		b3.ResolverError(fmt.Errorf("dns: lookup failed"))
+		b3.UpdateClientConnState(balancer.ClientConnState{ResolverState: resolver.State{Addresses: addrLists["a1"]}, BalancerConfig: &GCPBalancerConfig{ApiConfig: proto.Clone(orig).(*pb.ApiConfig)}})
+		b3.ResolverError(fmt.Errorf("dns: lookup failed"))
+		if gb3.cfg == nil || !proto.Equal(gb3.cfg.ApiConfig, exp) {
+			x.report("C17.P5", "resolver errors around the first resolver update change the effective configuration", fmt.Sprintf("expected %v, effective %v", exp, gb3.cfg))
+		}
+		if n := cc3.count("NewSubConn"); n != int(exp.ChannelPool.MinSize) {
+			x.report("C17.P7", "initial pool size after an early resolver error does not match the effective minSize", fmt.Sprintf("created %d, effective minSize %d", n, exp.ChannelPool.MinSize))
+		}
 	}
 }
 
